@@ -553,6 +553,11 @@ def main():
 
     for blk in ("_p1_final_block", "_rwg_final_block"):
         VR.add_block(run, "contracts.dofmap_blocks", blk)
+    # invert_local2global: global2local lists (e, i) under d  <=>  local2global[e, i] == d with a non-zero multiplier (V-engine, all sizes; the list of lists is
+    # abstracted to a relation: order and multiplicity of the entries are not modelled)
+    VR.add_function(run, "bempp_cl.api.space.space", "invert_local2global", "contracts.space_maps",
+                    [{"local2global_map": [[0, 1, 2], [2, 1, 3]], "local_multipliers": [[1, 1, 0], [1, -1, 1]]}, {"local2global_map": [[0]], "local_multipliers": [[1]]},
+                     {"local2global_map": [[1, 1], [0, 1]], "local_multipliers": [[0, 1], [1, 0]]}])
     B = {"include_boundary_dofs": True}
     conf = [("tetra", ("P", 1, {})), ("tetra", ("RWG", 0, {})), ("tetra", ("SNC", 0, {})), ("pair:2:012:120", ("P", 1, B)), ("pair:2:012:120", ("RWG", 0, B)),
             ("pair:2:012:120", ("SNC", 0, B)), ("pair:2:120:201", ("P", 1, B)), ("pair:2:120:201", ("RWG", 0, B)), ("pair:2:120:201", ("SNC", 0, B)),
